@@ -203,6 +203,7 @@ type a3 struct {
 	eventSites      int
 	assignedVars    map[*types.Var]bool
 	onCallback      func(st *a3State, call *ast.CallExpr)
+	onCall          func(st *a3State, call *ast.CallExpr)
 	pendingLabel    string
 	probing         int
 }
@@ -525,6 +526,9 @@ func (a *a3) scanExpr(st *a3State, e ast.Node) {
 			visit(x.Fun)
 			for _, arg := range x.Args {
 				visit(arg)
+			}
+			if a.onCall != nil {
+				a.onCall(st, x)
 			}
 			if a.isCallbackIdent(x.Fun) {
 				a.eventSites++
@@ -1177,12 +1181,12 @@ func (a *a3) loop(st a3State, init ast.Stmt, cond ast.Expr, post ast.Stmt, body 
 		t := &a3Target{label: label, isLoop: true}
 		a.targets = append(a.targets, t)
 		saveSites, saveUns := a.eventSites, len(a.unsupported)
-		saveOnStmt, saveOnRet, saveCb := a.onStmt, a.onReturn, a.onCallback
-		a.onStmt, a.onReturn, a.onCallback = nil, nil, nil
+		saveOnStmt, saveOnRet, saveCb, saveCall := a.onStmt, a.onReturn, a.onCallback, a.onCall
+		a.onStmt, a.onReturn, a.onCallback, a.onCall = nil, nil, nil, nil
 		a.probing++
 		out := a.block(body.List, probe)
 		a.probing--
-		a.onStmt, a.onReturn, a.onCallback = saveOnStmt, saveOnRet, saveCb
+		a.onStmt, a.onReturn, a.onCallback, a.onCall = saveOnStmt, saveOnRet, saveCb, saveCall
 		a.targets = a.targets[:len(a.targets)-1]
 		a.eventSites = saveSites
 		a.unsupported = a.unsupported[:saveUns]
